@@ -40,16 +40,21 @@ VARIABLES l, verdict,
           names      \* type number -> name under which it was canonicalized
 vars == <<l, verdict, dump, bis, taint, hc, prop, nonconf, cur, names>>
 
-(* ---- known findings (placeholders; the integrator moves listed ones to KnownFindings.tla) -------------- *)
-(* C20-cycle-detection: is_comparison_cycle_detected() answers "l OR r is being compared", so a sub-type pair *)
-(* (l, r') with r' a different type than the r that l is being compared with is assumed equal.                *)
+(* ---- known findings (placeholders: FALSE until listed; the integrator moves listed ones to KnownFindings.tla) ---------- *)
+(* C20-cycle-detection: is_comparison_cycle_detected() answers "l OR r is being compared", so a sub-type pair (l, r') with r' *)
+(* another type than the r that l is being compared with is assumed equal: different same-named types (and the pointer /     *)
+(* function types built on them) share a canonical type, Compare says "equal" for structurally different types, and           *)
+(* `abidw --debug-tc` aborts with "structural & canonical equality different".  A structural predicate on the event would     *)
+(* have to recognise "the two types differ only below a pair that was assumed equal"; none is offered -- FALSE.             *)
 KF_C20_cycle(ev) == FALSE
-(* C20-debug-abidiff-false-alarms: `abidw --debug-abidiff` prints "error: wrong canonical type for 'function type ...'" for the   *)
-(* type of every function-decl read back from ABIXML (such types carry no type-id, and check_canonical_type_from_abixml_during_   *)
-(* self_comp answers false for a type without type-id), and "error: no type with type-id ... could be read back from the typeid    *)
-(* file" for emitted types that were not canonical types; the run itself ends normally with status 0.                            *)
+(* C20-sticky-propagated-flag: canonical_type_propagated_ is never reset; equals(class_decl) clears the canonical type of an  *)
+(* already canonicalized right-hand operand (event Cancel, early, of a type whose canonical type was set by CanonEnd).         *)
+KF_C20_sticky_flag(ev) == FALSE
+(* C20-debug-abidiff-false-alarms: `abidw --debug-abidiff` prints "error: wrong canonical type for 'function type ...'" for    *)
+(* the type of every function-decl read back from ABIXML (such types carry no type-id) and "error: no type with type-id ...    *)
+(* could be read back from the typeid file" for the `void` type-decl (cf. C03-void-type-position); the run ends with status 0.  *)
 KF_C20_debug_abidiff(ev) == FALSE
-(* ---------------------------------------------------------------------------------------------------------- *)
+(* ------------------------------------------------------------------------------------------------------------------------ *)
 
 Get(f, x) == IF x \in DOMAIN f THEN f[x] ELSE 0
 Put(f, x, v) == [y \in DOMAIN f \cup {x} |-> IF y = x THEN v ELSE f[y]]
@@ -91,7 +96,7 @@ VDump(ev, B, tn) ==
      ELSE "ok"
 
 (* the library's own checks (abidw --debug-tc / --debug-abidiff of the dbgcanon build) never fire *)
-VDebugRun(ev) == IF ev.tcDiffers # 0 THEN "bad:structural-and-canonical-equality-differ:" \o ev.mode
+VDebugRun(ev) == IF ev.tcDiffers # 0 THEN (IF KF_C20_cycle(ev) THEN "kf:C20-cycle-detection" ELSE "bad:structural-and-canonical-equality-differ:" \o ev.mode)
                  ELSE IF ev.ret # "ok" THEN "bad:debug-check-aborted:" \o ev.mode
                  ELSE IF ev.errOther # 0 THEN "bad:debug-check-reported-an-error:" \o ev.mode
                  ELSE IF ev.errFnType + ev.errTypeId # 0
@@ -117,7 +122,8 @@ Guard(ev) ==
          ELSE IF Get(hc, ev.c) # ev.c THEN "bad:candidate-is-not-a-canonical-type"
          ELSE IF Get(names, ev.c) # cur.name THEN "bad:candidate-of-another-name"
          ELSE IF ev.tp # 0 /\ ev.cp # 0 /\ ev.tp \notin taint /\ ev.cp \notin taint /\ ev.r # StructEq(dump, bis, ev.cp, ev.tp)
-           THEN (IF ev.r THEN "bad:compared-equal-but-structurally-different" ELSE "bad:compared-different-but-structurally-equal")
+           THEN (IF ev.r THEN (IF KF_C20_cycle(ev) THEN "kf:C20-cycle-detection" ELSE "bad:compared-equal-but-structurally-different")
+                 ELSE "bad:compared-different-but-structurally-equal")
          ELSE "ok"
     [] ev.e = "Propagate" ->
          IF cur.t = 0 THEN "bad:propagation-outside-canonicalization"
@@ -127,7 +133,9 @@ Guard(ev) ==
     [] ev.e = "Confirm" -> IF ev.t \notin nonconf THEN "bad:confirmed-type-was-not-pending" ELSE "ok"
     [] ev.e = "Cancel" ->
          IF cur.t = 0 THEN "bad:cancel-outside-canonicalization"
-         ELSE IF ev.cleared /\ Get(hc, ev.t) # 0 /\ ev.t \notin prop THEN "bad:cancelled-a-canonical-type-that-was-not-propagated" ELSE "ok"
+         ELSE IF ev.cleared /\ Get(hc, ev.t) # 0 /\ ev.t \notin prop
+           THEN (IF KF_C20_sticky_flag(ev) THEN "kf:C20-sticky-propagated-flag" ELSE "bad:cancelled-a-canonical-type-that-was-not-propagated")
+         ELSE "ok"
     [] ev.e = "CanonAlias" -> "ok"
     [] ev.e = "CanonEnd" ->
          IF cur.t = ev.t /\ ev.c # (IF cur.found # 0 THEN cur.found ELSE cur.t)
